@@ -149,3 +149,90 @@ func init() {
 		}
 	}
 }
+
+// override.converted (C14): a pipeline-overridable constant has the supplied
+// value "converted to the override's type". Override resolution keeps a table of
+// resolved numbers ([]float64 indexed by override) from which dependent
+// overrides and initialisers are evaluated; every store into such a table must
+// take its value from a call that receives the override's declared type (its
+// Ty field) - the type-aware conversion. Storing the raw supplied number makes
+// everything evaluated from the table disagree with the override itself
+// (a: i32 = 2.5 is 2, but b = a * 2 became 5).
+func (c *Ctx) runOverrideConverted(r *Report, rule string) {
+	n := 0
+	for _, fn := range c.allFuncs() {
+		if fn.Pkg.Rel != "ir" && fn.Pkg.Rel != "msl/internal/codegen" {
+			continue
+		}
+		info := fn.Pkg.Info
+		ord := 0
+		ast.Inspect(fn.Decl.Body, func(m ast.Node) bool {
+			as, ok := m.(*ast.AssignStmt)
+			if !ok || len(as.Lhs) != 1 || len(as.Rhs) != 1 {
+				return true
+			}
+			ix, ok := ast.Unparen(as.Lhs[0]).(*ast.IndexExpr)
+			if !ok {
+				return true
+			}
+			tv, ok := info.Types[ix.X]
+			if !ok {
+				return true
+			}
+			sl, ok := tv.Type.Underlying().(*types.Slice)
+			if !ok {
+				return true
+			}
+			if b, ok := sl.Elem().Underlying().(*types.Basic); !ok || b.Kind() != types.Float64 {
+				return true
+			}
+			// the table must be sized by the module's overrides: make([]float64, len(X.Overrides))
+			id, ok := ast.Unparen(ix.X).(*ast.Ident)
+			if !ok {
+				return true
+			}
+			sized := false
+			ast.Inspect(fn.Decl.Body, func(k ast.Node) bool {
+				a2, ok := k.(*ast.AssignStmt)
+				if !ok || len(a2.Lhs) != 1 || len(a2.Rhs) != 1 {
+					return true
+				}
+				if l, ok := a2.Lhs[0].(*ast.Ident); ok && (info.Defs[l] == info.Uses[id] || info.Uses[l] == info.Uses[id]) {
+					if strings.Contains(types.ExprString(a2.Rhs[0]), ".Overrides)") {
+						sized = true
+					}
+				}
+				return true
+			})
+			if !sized {
+				return true
+			}
+			n++
+			ord++
+			cons := fn.id() + ":" + id.Name
+			if ord > 1 {
+				cons += "#" + itoa(ord)
+			}
+			typed := false
+			ast.Inspect(as.Rhs[0], func(k ast.Node) bool {
+				call, ok := k.(*ast.CallExpr)
+				if !ok {
+					return true
+				}
+				for _, a := range call.Args {
+					if se, ok := ast.Unparen(a).(*ast.SelectorExpr); ok && se.Sel.Name == "Ty" {
+						typed = true
+					}
+				}
+				return true
+			})
+			if typed {
+				r.ok(rule, cons, c.pos(as.Pos()), "")
+			} else {
+				r.viol(rule, cons, c.pos(as.Pos()), fn.id()+" stores "+types.ExprString(as.Rhs[0])+" into the table of resolved override values without a conversion that receives the override's type: dependent overrides and initialisers are evaluated from the raw supplied number")
+			}
+			return true
+		})
+	}
+	r.inst("override.converted", n)
+}
